@@ -10,6 +10,7 @@ package vspec
 import (
 	"bytes"
 	"math"
+	"reflect"
 	"strconv"
 	"time"
 	"unsafe"
@@ -108,6 +109,15 @@ func Owned(x interface{}) bool { return true }
 // Natively they cannot be observed (constants); the generator decides clauses that use them.
 func Watermark() uint64           { return ^uint64(0) }
 func BaseOf(x interface{}) uint64 { return 0 }
+
+// SameSlice: a and b are the same slice value (same memory, offset and length), for any element type.
+func SameSlice(a, b interface{}) bool {
+	va, vb := reflect.ValueOf(a), reflect.ValueOf(b)
+	if va.Kind() != reflect.Slice || vb.Kind() != reflect.Slice || va.Len() != vb.Len() {
+		return false
+	}
+	return va.Len() == 0 && va.IsNil() == vb.IsNil() || va.Len() > 0 && va.Pointer() == vb.Pointer()
+}
 
 // Window reports whether out is exactly the window data[lo:hi] of the same
 // memory (an alias, not a copy).
